@@ -86,7 +86,32 @@ class HybridInner(AutoSerialize, torch.nn.Module):
         super().__init__()
 
 
-CLASSES = {c.__name__: c for c in (Root, NodeA, NodeB, NodeC, Old, Top, Mid, Inner, HybridInner)}
+class HybridRoot(AutoSerialize, torch.nn.Module):
+    """A ROOT that is both AutoSerialize and torch.nn.Module (the pattern of the ptychography object / probe models):
+    parameters, buffers and sub-modules live in _parameters / _buffers / _modules, not in the instance dict."""
+
+    def __init__(self):
+        torch.nn.Module.__init__(self)
+        super().__init__()
+
+
+try:  # an attrs-style root (the serializer honours __attrs_attrs__); attrs is not a dependency of quantem
+    import attrs as _attrs
+
+    @_attrs.define(slots=False, eq=False)
+    class AttrsRoot(AutoSerialize):
+        a: object = None
+        arr: object = None
+        s: object = None
+        t: object = None
+        lst: object = None
+        child: object = None
+
+except Exception:  # pragma: no cover
+    AttrsRoot = None
+
+
+CLASSES = {c.__name__: c for c in (Root, NodeA, NodeB, NodeC, Old, Top, Mid, Inner, HybridInner, HybridRoot)}
 
 
 # ============================================================================= 2. leaf alphabet
